@@ -123,7 +123,7 @@ CHECKS = {
   technique="TLA+ spec (Concurrency.tla) model-checked with TLC; forced schedules on the real shared objects recorded and validated against Trace_Concurrency; Go race detector on a contended driver"),
  "C12": dict(
   category="exploration",
-  text="A specification cannot observe a Go panic, CPU time or allocation; Hostile.tla contributes the systematic space of hostile inputs - 347 mutation plans (base input kind x operator x target class: byte-level damage; BER length fields that lie: short, long, 2 GiB, 4 GiB, indefinite, non-minimal, 5 and 8 length octets; zero / long / other-class tags; nesting 49..5000, 9999..40000 children; dropped, duplicated, swapped nodes; malformed OIDs, negative and huge integers, bad string types and BIT STRINGs; CBOR heads of 4 GiB / 2^63, renamed / dropped / duplicated keys, type swaps, deep arrays, unterminated indefinite items; evidence records / fields / document files absent, empty, oversized; hostile chip answer policies; MRZ text damage), their applicability rules, the map from base kind to the public entry points that consume it, and the totality contract with the resource bounds TimeBoundMs / AllocBound. TLC enumerates the plans; the harness applies each to generated genuine inputs (13 LDS kinds, signed EF.SOD / CardSecurity / master lists / certificates, CBOR exports of live sessions with evidence of every mechanism, protected responses, MRZs) and calls every listed entry point (830k calls quick): a recovered panic, a call that does not return in 30 s, time beyond the bound, or allocation beyond 64 MiB + 4 KiB x input length (length-lying plans run one at a time with runtime.MemStats around each call) is a violation. Also: every short string of Tlv.tla's exhaustive table bare and wrapped as the content of each of the 13 LDS templates, 77 hostile-chip reads, and signatures with scalars between the group orders of sibling curves.",
+  text="A specification cannot observe a Go panic, CPU time or allocation; Hostile.tla contributes the systematic space of hostile inputs - 2963 mutation plans (base input kind x operator x target class: byte-level damage; BER length fields that lie: short, long, 2 GiB, 4 GiB, indefinite, non-minimal, 5 and 8 length octets; zero / long / other-class tags; nesting 49..5000, 9999..40000 children; dropped, duplicated, swapped nodes; malformed OIDs, negative and huge integers, bad string types and BIT STRINGs; CBOR heads of 4 GiB / 2^63, renamed / dropped / duplicated keys, type swaps, deep arrays, unterminated indefinite items; evidence records / fields / document files absent, empty, oversized; hostile chip answer policies; MRZ text damage), their applicability rules, the map from base kind to the public entry points that consume it, and the totality contract with the resource bounds TimeBoundMs / AllocBound. TLC enumerates the plans; the harness applies each to generated genuine inputs (13 LDS kinds, signed EF.SOD / CardSecurity / master lists / certificates, CBOR exports of live sessions with evidence of every mechanism, protected responses, MRZs) and calls every listed entry point (830k calls quick): a recovered panic, a call that does not return in 30 s, time beyond the bound, or allocation beyond 64 MiB + 4 KiB x input length (length-lying plans run one at a time with runtime.MemStats around each call) is a violation. Also: every short string of Tlv.tla's exhaustive table bare and wrapped as the content of each of the 13 LDS templates, 77 hostile-chip reads, and signatures with scalars between the group orders of sibling curves.",
   design_ref="DESIGN.md §6 C12",
   note="Exploration, not proof: deciding power is that of structure-aware generation; resource bounds are generous observations. Four defects found this way were repaired (see known_findings.json).",
   technique="TLA+ spec (Hostile.tla) enumerates mutation plans and entry points with TLC; harness applies them to generated genuine inputs and observes panic / time / allocation of the real entry points"),
